@@ -298,9 +298,24 @@ def execute_race(ctx, case):
   sched = Sched(case['switches'], [w.__file__], max_steps=200000)
   errors = []
 
+  reload_done = [None]
+  create_step = {}
+
+  exists_step = {}
+
+  def on_call(rec):
+    # the writer asks exists(metric) and only then looks the schemas up: a look-up that begins after both reloads
+    # have completed sees the new lists
+    if rec[1] == 'exists' and rec[2] not in create_step:
+      exists_step[rec[2]] = sched.steps
+    if rec[1] == 'create':
+      create_step[rec[2]] = exists_step.get(rec[2], -1)
+  db.on_call = on_call
+
   def reactor_thread():
     w.reloadStorageSchemas()
     w.reloadAggregationSchemas()
+    reload_done[0] = sched.steps
 
   def writer_thread():
     try:
@@ -326,16 +341,20 @@ def execute_race(ctx, case):
     eo = expected(old, name)
     en = expected(new, name)
     g_rets = [tuple(r) for r in (got[0] or [])]
-    ok_rets = g_rets in (eo[0], en[0])
+    # a file whose create() call starts after both reloads have completed is created from the NEW lists
+    after_reload = reload_done[0] is not None and create_step.get(name, -1) > reload_done[0]
+    allowed = (en,) if after_reload else (eo, en)
+    ok_rets = g_rets in [e[0] for e in allowed]
 
     def same(x, y):
       return (x is None and y is None) or (x is not None and y is not None and float(x) == float(y))
-    ok_agg = any(same(got[1], e[1]) and got[2] == e[2] for e in (eo, en))
+    ok_agg = any(same(got[1], e[1]) and got[2] == e[2] for e in allowed)
     if not (ok_rets and ok_agg):
       ctx.fail('C19:reload-race-wrong-create-arguments',
-               'schema files reloaded while %r was being created: created with retentions=%r xff=%r method=%r, which is the '
+               'schema files reloaded while %r was being created%s: created with retentions=%r xff=%r method=%r, which is the '
                'first match in neither the old files (%r, %r, %r) nor the new ones (%r, %r, %r)' % (
-                 name, g_rets, got[1], got[2], eo[0], eo[1], eo[2], en[0], en[1], en[2]), dict(case, names=[name]), 'reload')
+                 name, ' (the writer turned to it after both reloads had completed: only the new files count)' if after_reload else '',
+                 g_rets, got[1], got[2], eo[0], eo[1], eo[2], en[0], en[1], en[2]), case, 'reload')
       return
   ctx.note(case, nontrivial=len(sched.preemptions()) > 0 and any(expected(old, n)[0] != expected(new, n)[0] for n in case['names']),
            classes=['reload during create loop'])
